@@ -25,7 +25,7 @@ FromJson(m) == [m EXCEPT !.auth = ToSet(@), !.acct = ToSet(@)]
 RECURSIVE MsgsFromJson(_)
 MsgsFromJson(ms) == IF ms = <<>> THEN <<>> ELSE <<FromJson(Head(ms))>> \o MsgsFromJson(Tail(ms))
 
-Apply(S, act) ==
+Apply1(S, act) ==
   CASE act.a = "start"          -> EnvStart(S)
     [] act.a = "plan"           -> [S EXCEPT !.dialPlan = act.plan]
     [] act.a = "connect"        -> EnvConnect(S)
@@ -35,6 +35,7 @@ Apply(S, act) ==
     [] act.a = "peer_close"     -> EnvPeerClose(S, act.c)
     [] act.a = "peer_reset"     -> EnvPeerReset(S, act.c)
     [] act.a = "send_error"     -> EnvSendError(S, act.c)
+    [] act.a = "stall"          -> EnvStall(S, act.c)
     [] act.a = "connect_result" -> EnvConnectResult(S, act.c, act.err)
     [] act.a = "tick"           -> EnvTick(S)
     [] act.a = "stop"           -> EnvStop(S, act.force, act.wait)
@@ -43,6 +44,11 @@ Apply(S, act) ==
                                                                           /\ S.held[j].c = act.c0}
                                        S1 == IF hs = {} THEN S ELSE [S EXCEPT !.held[CHOOSE j \in hs : \A k \in hs : j <= k].answered = TRUE]
                                    IN SubmitAnswer(S1, act.app, FromJson(act.m))
+
+\* several environment events at the same instant (before any thread of the node runs): [a |-> "multi", acts |-> <<...>>]
+RECURSIVE ApplyAll(_, _)
+ApplyAll(S, acts) == IF acts = <<>> THEN S ELSE ApplyAll(Apply1(S, Head(acts)), Tail(acts))
+Apply(S, act) == IF act.a = "multi" THEN ApplyAll(S, act.acts) ELSE Apply1(S, act)
 
 \* ---------------------------------------------------------------- thread steps as data (interleaving-quantified use)
 \* a step names the thread that runs from its current blocking call to the next:
